@@ -3,6 +3,7 @@ from decimal import Decimal
 from engine import sx
 
 PID = "C17"
+TIES = ['encode_varint', 'prepend_compact_size', 'parse_compact_size', 'vi_to_int']   # source-tie files coq/Properties/Tie_<f>.v that belong to this property
 THEOREMS = ["C17_canonical", "C17_shortest", "C17_too_large", "C17_parse", "C17_vi", "C17_prefix_free",
             "C17_prepend", "C17_sat_decimal", "C17_sat_float", "C17_sat_float_near"]
 TECHNIQUE = "Coq proof (lia over the piecewise boundaries; Flocq for the float path) + extracted-model correspondence"
